@@ -15,6 +15,16 @@ TEXT = {
             "proved against the spec; any CRep representation (zero summaries or expanded zeros) has the same root. Other "
             "routes (decode, from_obj) tied by correspondence.",
             "Coq proof by induction on ty + CRep invariant; vm_compute correspondence", "5 (C01)"),
+    "C02": ("Theorems: the offset / count bookkeeping of the sequence and container serialisers equals the specification's "
+            "ser_parts for ARBITRARY element encodings (fixed parts, 4-byte offsets, variable parts in order; returned "
+            "count = bytes written); leaf kinds uintN / boolean serialise to the spec bytes; spec encoding lengths lie "
+            "within the type bounds. Tree reading, packing and bit handling: correspondence (encode_bytes, "
+            "serialize(stream) bytes + count, bytes()).",
+            "Coq proof (offset bookkeeping, leaf kinds) + correspondence", "5 (C02)"),
+    "C03": ("Theorems: uintN / boolean decode(encode(v)) from a stream with an arbitrary suffix returns the constructed "
+            "backing and the untouched suffix. Other kinds: correspondence (prefix / suffix around the encoding, exact "
+            "scope; success, root, re-encoding, ==, bytes consumed).",
+            "Coq proof (leaf kinds) + correspondence", "5 (C03)"),
     "C04": ("Theorems: on ANY contents tree representing a node list (CRep: any mixture of zero summaries / expanded "
             "zeros) a write at position i represents the updated list, an expanding write at |ns| represents ns++[v], and "
             "the root is always the merkleisation of the represented list (no stale root). View level: for lists of "
@@ -44,6 +54,16 @@ TEXT = {
             "type; whole paths are step-wise the spec's and Path.gindex() concatenates those steps; to_gindex i d = 2^d+i. "
             "Node addressing and dynamic indices tied by correspondence + model-free oracle.",
             "Coq proof (case analysis on ty, N arithmetic/bit lemmas) + correspondence", "5 (C08)"),
+    "C09": ("Theorems: the decoder model is a total function for every type / byte string / scope and fails only with "
+            "error values; accepted uintN / boolean inputs yield consistent, stable values. Composite kinds: "
+            "correspondence over ~15k byte strings per run (exhaustive short strings, exhaustive first / last byte of "
+            "valid encodings, structure-aware corruptions) + model-free oracles (readable, within limits, content = root = "
+            "encoding, stable under encode / decode).",
+            "Coq proof (totality, leaf kinds) + correspondence with model-free oracles", "5 (C09)"),
+    "C10": ("Theorems: for uintN / boolean scoped decoding, acceptance implies scope = size and re-encoding = the consumed "
+            "bytes; non-0/1 booleans rejected. Composite kinds: accepted language compared with the model on the C09 input "
+            "space; model-free: accepted => re-encodes to itself.",
+            "Coq proof (leaf kinds) + correspondence", "5 (C10)"),
     "C11": ("Theorems: the implementation model's is_fixed / min / max / type_byte_length equal the specification's for "
             "every type (induction on ty); every well-formed value's spec encoding length lies in [min_len, max_len] and "
             "equals fsize for fixed types (full nesting). value_byte_length tied by correspondence + model-free oracle.",
@@ -70,6 +90,10 @@ TEXT = {
             "as machines and compared with indexing / slices / iteration / to_obj on lengths sweeping every subtree "
             "boundary (correspondence + model-free agreement oracle); their invariant proof is not done.",
             "Coq proof (CRep_get) + literal iterator model + correspondence", "5 (C15)"),
+    "C16": ("Theorems: hex text round trip; JSON dump/load idempotent on exported objects; integers of every width and "
+            "booleans export to the documented shape and import back to the same backing, also through JSON. Composite "
+            "kinds: correspondence (exact tagged shape, from_obj, JSON, alternative spellings; all roots = original).",
+            "Coq proof (helpers, leaf kinds) + correspondence", "5 (C16)"),
     "C17": ("Theorems (all H, src, trees, paths): a partial tree (subtrees replaced by bare summaries) has the same root; "
             "every read / non-expanding write / expanding write that succeeds on it succeeds on the complete tree with "
             "related results and equal roots (expanding writes under Hinj, relying on the repaired setter); every failure "
